@@ -19,7 +19,7 @@
      facts       close conditions that really happened (C10)
      skipped     late 100 responses skipped in the receive-response state
      bodyAsked   the send-body state was entered                                         *)
-EXTENDS RespRules, Sequences
+EXTENDS RespRules, Sequences, Integers
 
 FClause(p, why, cond) == IF cond THEN {} ELSE {<<p, why>>}
 
@@ -30,7 +30,12 @@ InitFlow(rq) ==
   [st |-> "Prepare", rq |-> rq, shouldSend |-> NeedsReqBody(rq.method), await100 |-> rq.expect,
    ready |-> FALSE, status |-> 0, modes |-> {},
    facts |-> (IF rq.ver10 THEN {"Http10"} ELSE {}) \cup (IF rq.connclose THEN {"ClientClose"} ELSE {}),
-   skipped |-> 0, bodyAsked |-> FALSE, refused |-> FALSE]
+   skipped |-> 0, bodyAsked |-> FALSE, refused |-> FALSE,
+   \* request body still to be sent: a number for Content-Length framing, -1 for chunked, -2 when not tracked
+   bleft |-> -2, framing |-> "unknown"]
+
+\* the trace specification knows the request's framing (cfg = [framing, cln, ...] logged with the case)
+WithFraming(s, cfg) == [s EXCEPT !.bleft = cfg.cln, !.framing = cfg.framing]
 
 (***************************************************************************)
 (* The documented state graph (src/client/mod.rs) as a successor function. *)
@@ -76,6 +81,15 @@ ProceedFails(s, e) ==
   \cup FClause("C11", "giving up waiting / a 100 response must lead to sending the body",
                (s.st = "Await100" /\ "Not100" \notin s.facts /\ e.res \notin {"none", "err"}) => e.res = "SendBody")
 
+\* Flow<SendBody>::write(): e = [inl, outl, res, c, p, ready].  The body itself is C03 / C04's business; what the state
+\* graph needs is that a completely sent body whose end was signalled lets the flow advance ("always lands in the
+\* successor state ... for what has been sent so far").
+BodyLeftAfter(s, e) == IF s.bleft >= 0 /\ e.res = "ok" THEN s.bleft - e.c ELSE s.bleft
+SbWriteFails(s, e) ==
+  IF "inl" \notin DOMAIN e \/ s.bleft = -2 THEN {} ELSE
+  FClause("C09", "the request body was sent completely and its end signalled, but the flow does not become ready to advance",
+          (e.res = "ok" /\ e.inl = 0 /\ (IF s.bleft >= 0 THEN BodyLeftAfter(s, e) = 0 ELSE e.outl >= 5)) => e.ready)
+
 \* the readiness the specification expects in the state entered by a successful proceed
 ReadyOnEntry(s, next) ==
   CASE next = "RecvBody"     -> Close \in s.modes
@@ -120,10 +134,16 @@ Read100Upd(s, e) ==
 
 \* try_response(): e = [kind ("partial" | "late100" | "final"), res ("none" | "some" | "err"), n, mlen,
 \*                      cell (RespRules cell of a final head), connclose, ready]
+\* A late 100 offered in one window with the complete final head (e.hlen > 0) may be skipped and the final response
+\* returned by the same call: "skipped exactly once before the real response" says nothing about the number of calls.
+Together(s, e) == e.kind = "late100" /\ s.await100 /\ "hlen" \in DOMAIN e /\ e.hlen > 0 /\ e.res = "some" /\ e.n > e.mlen
 ResponseFails(s, e) ==
-  LET ms == IF e.kind = "final" THEN Modes(e.cell) ELSE {}
+  LET ms == IF e.kind = "final" \/ Together(s, e) THEN Modes(e.cell) ELSE {}
   IN CASE e.kind = "partial" ->
             FClause("C09", "an incomplete head must yield no response and consume nothing", e.res = "none" /\ e.n = 0)
+       [] Together(s, e) ->
+            FClause("C11", "a late 100 skipped together with the real response: both must be consumed exactly and that response returned",
+                    ms # {ErrMode} /\ e.n = e.mlen + e.hlen /\ e.ready /\ e.got_status = e.cell.status)
        [] e.kind = "late100" ->
             IF s.await100
             THEN FClause("C11", "a late 100 response must be skipped: consumed exactly, no response returned, flow not ready",
@@ -137,7 +157,10 @@ ResponseFails(s, e) ==
                     IF ms = {ErrMode} THEN e.res = "err" ELSE (e.res = "some" /\ e.n = e.mlen /\ e.ready))
 
 ResponseUpd(s, e) ==
-  IF e.kind = "late100" /\ s.await100 /\ e.res = "none" /\ e.n > 0
+  IF Together(s, e)
+  THEN [s EXCEPT !.await100 = FALSE, !.skipped = @ + 1, !.status = e.cell.status, !.modes = Modes(e.cell), !.ready = e.ready,
+                    !.facts = IF e.connclose THEN @ \cup {"ServerClose"} ELSE @]
+  ELSE IF e.kind = "late100" /\ s.await100 /\ e.res = "none" /\ e.n > 0
   THEN [s EXCEPT !.await100 = FALSE, !.skipped = @ + 1]
   ELSE IF e.kind = "final" /\ e.res = "some"
   THEN [s EXCEPT !.status = e.cell.status, !.modes = Modes(e.cell), !.ready = e.ready,
@@ -151,7 +174,9 @@ VerdictFails(s, e) ==
   \cup FClause("C10", "a close reason must be given exactly when the connection must close",
                (e.reason # "") <=> e.must_close)
   \cup FClause("C10", "the close reason names a condition that does not hold",
-               (e.reason # "" /\ ReasonFact(e.reason) # "unknown") => ReasonFact(e.reason) \in s.facts)
+               \* the harness maps the text by prefix (rfact); texts it does not know are not judged
+               LET rf == IF "rfact" \in DOMAIN e THEN e.rfact ELSE ReasonFact(e.reason)
+               IN (e.reason # "" /\ rf # "unknown") => rf \in s.facts)
   \cup FClause("C11", "a non-100 response while awaiting 100 must mark the connection must-close",
                "Not100" \in s.facts => e.must_close)
 
